@@ -257,6 +257,58 @@ class _Modern(ast.NodeTransformer):
             return _loc(ast.Constant(value=''.join(str(v.value) for v in node.values)), node)
         return _loc(ast.Call(func=ast.Attribute(value=ast.Constant(value=text), attr='format', ctx=ast.Load()), args=args, keywords=[]), node)
 
+    # ---- str.removeprefix / removesuffix with a literal, on a receiver that is cheap and pure to evaluate again --------------
+    #      x.removeprefix('+')  ==>  (x[1:] if x.startswith('+') else x)        x.removesuffix('(0)')  ==>  (x[:-3] if x.endswith('(0)') else x)
+    @staticmethod
+    def _pure_receiver(e):
+        if isinstance(e, ast.Name):
+            return True
+        if isinstance(e, ast.Attribute):
+            return _Modern._pure_receiver(e.value)
+        if isinstance(e, ast.Subscript):
+            return _Modern._pure_receiver(e.value) and isinstance(e.slice, (ast.Constant, ast.Name))
+        return False
+
+    def visit_Call(self, node):
+        self.generic_visit(node)
+        f = node.func
+        if isinstance(f, ast.Attribute) and f.attr in ('removeprefix', 'removesuffix') and len(node.args) == 1 and not node.keywords and \
+                isinstance(node.args[0], ast.Constant) and isinstance(node.args[0].value, str) and node.args[0].value and \
+                self._pure_receiver(f.value):
+            k = len(node.args[0].value)
+            if f.attr == 'removeprefix':
+                cut = ast.Subscript(value=_clone(f.value), slice=ast.Slice(lower=ast.Constant(value=k), upper=None, step=None), ctx=ast.Load())
+                test = ast.Call(func=ast.Attribute(value=_clone(f.value), attr='startswith', ctx=ast.Load()), args=[node.args[0]], keywords=[])
+            else:
+                cut = ast.Subscript(value=_clone(f.value), slice=ast.Slice(lower=None, upper=ast.UnaryOp(op=ast.USub(), operand=ast.Constant(value=k)), step=None),
+                                    ctx=ast.Load())
+                test = ast.Call(func=ast.Attribute(value=_clone(f.value), attr='endswith', ctx=ast.Load()), args=[node.args[0]], keywords=[])
+            self.count += 1
+            return _loc(ast.IfExp(test=test, body=cut, orelse=_clone(f.value)), node)
+        return node
+
+    # ---- starred items in a list display:  [a, *B, c]  ==>  [a] + list(B) + [c]   (same elements, same order of evaluation) ------------
+    def visit_List(self, node):
+        self.generic_visit(node)
+        if not isinstance(node.ctx, ast.Load) or not any(isinstance(e, ast.Starred) for e in node.elts):
+            return node
+        parts, cur = [], []
+        for e in node.elts:
+            if isinstance(e, ast.Starred):
+                if cur:
+                    parts.append(ast.List(elts=cur, ctx=ast.Load()))
+                    cur = []
+                parts.append(ast.Call(func=ast.Name(id='list', ctx=ast.Load()), args=[e.value], keywords=[]))
+            else:
+                cur.append(e)
+        if cur:
+            parts.append(ast.List(elts=cur, ctx=ast.Load()))
+        out = parts[0]
+        for p_ in parts[1:]:
+            out = ast.BinOp(left=out, op=ast.Add(), right=p_)
+        self.count += 1
+        return _loc(out, node)
+
     # ---- walrus ------------------------------------------------------------------------------------------------
     @staticmethod
     def _first(expr):
@@ -360,6 +412,20 @@ class _Modern(ast.NodeTransformer):
             st.test = _loc(ast.Constant(value=True), st)
             st.body = pre + [brk] + st.body
             return [st]
+        if isinstance(st, ast.Assign) and len(st.targets) == 1 and isinstance(st.targets[0], ast.Name) and isinstance(st.value, ast.Call) and \
+                isinstance(st.value.func, ast.Attribute) and st.value.func.attr in ('removeprefix', 'removesuffix') and \
+                len(st.value.args) == 1 and not st.value.keywords and isinstance(st.value.args[0], ast.Constant) and \
+                isinstance(st.value.args[0].value, str) and st.value.args[0].value and not self._pure_receiver(st.value.func.value) and \
+                not any(isinstance(n, ast.Name) and n.id == st.targets[0].id for n in ast.walk(st.value.func.value)):
+            # x = E.removeprefix('+')   ==>   x = E;  x = x.removeprefix('+')     (x is not read by E; the second statement is then
+            # rewritten by the rule for pure receivers)
+            nm = st.targets[0].id
+            first = _loc(ast.Assign(targets=[ast.Name(id=nm, ctx=ast.Store())], value=st.value.func.value), st)
+            call = ast.Call(func=ast.Attribute(value=ast.Name(id=nm, ctx=ast.Load()), attr=st.value.func.attr, ctx=ast.Load()),
+                            args=st.value.args, keywords=[])
+            second = _loc(ast.Assign(targets=[ast.Name(id=nm, ctx=ast.Store())], value=self.visit_Call(_loc(call, st))), st)
+            self.count += 1
+            return self._stmt(first) + [second]
         if isinstance(st, (ast.Assign, ast.Expr, ast.Return, ast.AugAssign)) and getattr(st, 'value', None) is not None:
             pre = self._hoist_first(st, 'value')
             return pre + [st]
@@ -393,47 +459,110 @@ class _Modern(ast.NodeTransformer):
             return ast.BoolOp(op=ast.Or(), values=parts)
         return None
 
+    @staticmethod
+    def _known_sequence(e):
+        """the expression certainly yields a list or a tuple (so a sequence pattern only has to look at its length)"""
+        if isinstance(e, (ast.List, ast.Tuple, ast.ListComp)):
+            return True
+        if isinstance(e, ast.Call):
+            if isinstance(e.func, ast.Attribute) and e.func.attr in ('split', 'rsplit', 'partition', 'rpartition', 'splitlines'):
+                return True
+            if isinstance(e.func, ast.Name) and e.func.id in ('list', 'tuple', 'sorted'):
+                return True
+        return False
+
+    def _sequence_arm(self, pat, subj):
+        """-> (test, bindings) for a sequence pattern of captures / wildcards / literals / one star, on a known list or tuple"""
+        elts = pat.patterns
+        stars = [i for i, p in enumerate(elts) if isinstance(p, ast.MatchStar)]
+        if len(stars) > 1:
+            return None
+        n = len(elts)
+        ln = ast.Call(func=ast.Name(id='len', ctx=ast.Load()), args=[_clone(subj)], keywords=[])
+        if stars:
+            tests = [ast.Compare(left=ln, ops=[ast.GtE()], comparators=[ast.Constant(value=n - 1)])]
+        else:
+            tests = [ast.Compare(left=ln, ops=[ast.Eq()], comparators=[ast.Constant(value=n)])]
+        binds = []
+        for i, p in enumerate(elts):
+            if stars and i > stars[0]:
+                idx = ast.UnaryOp(op=ast.USub(), operand=ast.Constant(value=n - i))
+            else:
+                idx = ast.Constant(value=i)
+            item = ast.Subscript(value=_clone(subj), slice=idx, ctx=ast.Load())
+            if isinstance(p, ast.MatchStar):
+                if p.name is not None:
+                    after = n - 1 - i
+                    sl = ast.Slice(lower=ast.Constant(value=i), upper=(ast.UnaryOp(op=ast.USub(), operand=ast.Constant(value=after)) if after else None), step=None)
+                    val = ast.Call(func=ast.Name(id='list', ctx=ast.Load()), args=[ast.Subscript(value=_clone(subj), slice=sl, ctx=ast.Load())], keywords=[])
+                    binds.append(_loc(ast.Assign(targets=[ast.Name(id=p.name, ctx=ast.Store())], value=val), p))
+            elif isinstance(p, ast.MatchAs) and p.pattern is None:
+                if p.name is not None:
+                    binds.append(_loc(ast.Assign(targets=[ast.Name(id=p.name, ctx=ast.Store())], value=item), p))
+            elif isinstance(p, ast.MatchValue) and isinstance(p.value, ast.Constant):
+                tests.append(ast.Compare(left=item, ops=[ast.Eq()], comparators=[p.value]))
+            elif isinstance(p, ast.MatchSingleton):
+                tests.append(ast.Compare(left=item, ops=[ast.Is()], comparators=[ast.Constant(value=p.value)]))
+            else:
+                return None
+        test = tests[0] if len(tests) == 1 else ast.BoolOp(op=ast.And(), values=tests)
+        return test, binds
+
     def _match(self, st):
         subj = st.subject
         pre = []
+        known_seq = self._known_sequence(subj)
         simple = isinstance(subj, ast.Name) or (isinstance(subj, ast.Attribute) and isinstance(subj.value, ast.Name))
         if not simple:
             self.tmp += 1
             nm = '__match%d' % self.tmp
             pre.append(_loc(ast.Assign(targets=[ast.Name(id=nm, ctx=ast.Store())], value=subj), st))
             subj = ast.Name(id=nm, ctx=ast.Load())
-        arms = []
+        arms = []          # (statements run when the arm is reached, test or True, body, case)
         for i, c in enumerate(st.cases):
-            last = i == len(st.cases) - 1
             if isinstance(c.pattern, ast.MatchAs) and c.pattern.pattern is None and c.pattern.name is not None:
-                if not last or c.guard is not None:
-                    return None
+                # a bare capture always matches: the name is bound when the arm is reached, the guard (if any) then decides
                 bind = _loc(ast.Assign(targets=[ast.Name(id=c.pattern.name, ctx=ast.Store())], value=_clone(subj)), c.pattern)
-                arms.append((True, [bind] + c.body, c))
+                arms.append(([bind], c.guard if c.guard is not None else True, c.body, c))
+                continue
+            if isinstance(c.pattern, ast.MatchSequence):
+                if c.guard is not None or not (known_seq or isinstance(subj, ast.Name)):
+                    return None
+                arm = self._sequence_arm(c.pattern, subj)
+                if arm is None:
+                    return None
+                test = arm[0]
+                if not known_seq:
+                    # what a sequence pattern asks first: a Sequence that is not a str / bytes / bytearray.  Kept as an explicit
+                    # marker call; the flattener replaces it by True where the subject is known to be a list or a tuple.
+                    mark = ast.Call(func=ast.Name(id='__sequence__', ctx=ast.Load()), args=[_clone(subj)], keywords=[])
+                    test = ast.BoolOp(op=ast.And(), values=[mark] + (test.values if isinstance(test, ast.BoolOp) else [test]))
+                arms.append(([], test, arm[1] + c.body, c))
                 continue
             t = self._pattern_test(c.pattern, subj)
             if t is None:
                 return None
             if c.guard is not None:
                 t = c.guard if t is True else ast.BoolOp(op=ast.And(), values=[t, c.guard])
-            arms.append((t, c.body, c))
-        # a subject that is a name re-bound in an arm body is still fine: the remaining tests are never evaluated after a match
-        chain = None
-        for t, body, c in reversed(arms):
-            if t is True:
-                chain = list(body)
-                continue
-            node = ast.If(test=t, body=list(body), orelse=chain or [])
-            _loc(node, c.pattern)
-            chain = [node]
-        if chain is None:
-            return None
-        # arms after an unconditional one are unreachable and were dropped by construction only if they come later: keep exactness
-        seen_true = False
-        for t, _b, _c in arms:
-            if seen_true:
+            arms.append(([], t, c.body, c))
+        # an arm that always matches must be the last one (anything after it is unreachable; Python rejects that anyway)
+        for k, (_p, t, _b, _c) in enumerate(arms):
+            if t is True and k != len(arms) - 1:
                 return None
-            seen_true = t is True
+        # a subject that is a name re-bound in an arm body is still fine: the remaining tests are never evaluated after a match;
+        # a capture of the subject's own name would change what later tests read
+        if simple and isinstance(subj, ast.Name) and any(isinstance(b, ast.Assign) and b.targets[0].id == subj.id for p_, _t, _b, _c in arms for b in p_):
+            return None
+        chain = []
+        for p_, t, body, c in reversed(arms):
+            if t is True:
+                chain = list(p_) + list(body)
+            else:
+                node = ast.If(test=t, body=list(body), orelse=chain)
+                _loc(node, c.pattern)
+                chain = list(p_) + [node]
+        if not chain:
+            return None
         self.count += 1
         return pre + chain
 
@@ -512,5 +641,203 @@ def properties_to_methods(trees):
         for fn in props[x]:
             fn.decorator_list = []
     for t in trees:
+        ast.fix_missing_locations(t)
+    return count
+
+
+# =====================================================================================================================
+# Module-level constants:  NAME = <literal>  bound exactly once in the module (at top level, outside any condition), never
+# stored, deleted or declared global anywhere else in the module, and not a parameter where it is read: every read of NAME in the
+# module then yields that literal, so the reads are replaced by it ('A' + 'B' of two literals is folded on the way).
+# Names exported to other modules keep their binding statement (only reads inside this module are rewritten).
+# =====================================================================================================================
+def _literal(e):
+    if isinstance(e, ast.Constant) and isinstance(e.value, (str, int, float)) and not isinstance(e.value, bool):
+        return True
+    if isinstance(e, ast.UnaryOp) and isinstance(e.op, ast.USub) and isinstance(e.operand, ast.Constant) and \
+            isinstance(e.operand.value, (int, float)) and not isinstance(e.operand.value, bool):
+        return True
+    return False
+
+
+def module_constants(tree):
+    cands = {}
+    for st in tree.body:
+        if isinstance(st, ast.Assign) and len(st.targets) == 1 and isinstance(st.targets[0], ast.Name) and _literal(st.value):
+            cands.setdefault(st.targets[0].id, []).append(st)
+    if not cands:
+        return 0
+    stores = {}
+    for n in ast.walk(tree):
+        if isinstance(n, ast.Name) and isinstance(n.ctx, (ast.Store, ast.Del)):
+            stores[n.id] = stores.get(n.id, 0) + 1
+        elif isinstance(n, (ast.Global, ast.Nonlocal)):
+            for nm in n.names:
+                stores[nm] = stores.get(nm, 0) + 2
+        elif isinstance(n, ast.arg):
+            stores[n.arg] = stores.get(n.arg, 0) + 2
+        elif isinstance(n, (ast.FunctionDef, ast.AsyncFunctionDef, ast.ClassDef)):
+            stores[n.name] = stores.get(n.name, 0) + 2
+        elif isinstance(n, ast.alias):
+            nm = (n.asname or n.name).split('.')[0]
+            stores[nm] = stores.get(nm, 0) + 2
+        elif isinstance(n, ast.ExceptHandler) and n.name:
+            stores[n.name] = stores.get(n.name, 0) + 2
+    consts = {nm: lst[0].value for nm, lst in cands.items() if len(lst) == 1 and stores.get(nm, 0) == 1 and
+              not (nm.startswith('__') and nm.endswith('__'))}
+    if not consts:
+        return 0
+    count = 0
+
+    class T(ast.NodeTransformer):
+        def visit_Name(self, n):
+            nonlocal count
+            if isinstance(n.ctx, ast.Load) and n.id in consts:
+                count += 1
+                return _loc(_clone(consts[n.id]), n)
+            return n
+
+        def visit_BinOp(self, n):
+            self.generic_visit(n)
+            if isinstance(n.op, ast.Add) and isinstance(n.left, ast.Constant) and isinstance(n.right, ast.Constant) and \
+                    isinstance(n.left.value, str) and isinstance(n.right.value, str):
+                return _loc(ast.Constant(value=n.left.value + n.right.value), n)
+            return n
+    for st in tree.body:
+        if isinstance(st, (ast.FunctionDef, ast.AsyncFunctionDef, ast.ClassDef)):
+            T().visit(st)
+    return count
+
+
+# =====================================================================================================================
+# NamedTuple records as plain tuples (package-wide):
+#
+#     class _Pair(NamedTuple):            _Pair(a, b)   ==>  (a, b)         _Pair(Right=b, Left=a)  ==>  (a, b)
+#         Left: float                     e.Left        ==>  e[0]
+#         Right: str = ''                 e.Right       ==>  e[1]
+#
+# A NamedTuple instance IS a tuple with these items; reading a field by name is reading the item.  Applied to a class only
+# when its field names mean nothing else in the package (no other attribute / method / class-level name of that spelling is
+# defined or stored anywhere), the class has no methods of its own and is only ever used by calling it directly by name; then
+# every `e.Left` in the package reads a `_Pair` (or fails with AttributeError, the one case where `e[0]` could differ - such a
+# read is an error in either form).  Keyword arguments are put in field order (they are evaluated in call order, which is
+# kept when the arguments are names / constants; otherwise the class is left alone).
+# =====================================================================================================================
+def records_to_tuples(trees):
+    recs = {}
+    for t in trees:
+        for st in t.body:
+            if not isinstance(st, ast.ClassDef) or st.decorator_list or len(st.bases) != 1:
+                continue
+            b = st.bases[0]
+            nm = b.attr if isinstance(b, ast.Attribute) else getattr(b, 'id', '')
+            if nm not in ('NamedTuple', '_NamedTuple'):
+                continue
+            fields, ok = [], True
+            for x in st.body:
+                if isinstance(x, ast.Expr) and isinstance(x.value, ast.Constant):
+                    continue
+                if isinstance(x, ast.Pass):
+                    continue
+                if isinstance(x, ast.AnnAssign) and isinstance(x.target, ast.Name):
+                    fields.append((x.target.id, x.value))
+                    continue
+                ok = False
+            if ok and fields and st.name not in recs:
+                recs[st.name] = (st, fields)
+            elif st.name in recs:
+                recs[st.name] = None
+    recs = {k: v for k, v in recs.items() if v}
+    if not recs:
+        return 0
+    field_owner = {}
+    for cname, (st, fields) in recs.items():
+        for i, (f, _d) in enumerate(fields):
+            field_owner.setdefault(f, []).append((cname, i))
+    # every other meaning of a field name, every other use of a record class name
+    blocked_fields, blocked_cls = set(), set()
+    for t in trees:
+        for n in ast.walk(t):
+            if isinstance(n, (ast.FunctionDef, ast.AsyncFunctionDef)):
+                blocked_fields.add(n.name)
+            elif isinstance(n, ast.Attribute) and isinstance(n.ctx, (ast.Store, ast.Del)):
+                blocked_fields.add(n.attr)
+            elif isinstance(n, ast.ClassDef):
+                if n.name not in recs or recs[n.name][0] is not n:
+                    for x in n.body:
+                        for tg in (x.targets if isinstance(x, ast.Assign) else [x.target] if isinstance(x, (ast.AnnAssign, ast.AugAssign)) else []):
+                            for y in ast.walk(tg):
+                                if isinstance(y, ast.Name):
+                                    blocked_fields.add(y.id)
+                    for b in n.bases:
+                        for y in ast.walk(b):
+                            if isinstance(y, ast.Name) and y.id in recs:
+                                blocked_cls.add(y.id)
+            elif isinstance(n, ast.Call) and isinstance(n.func, ast.Name) and n.func.id in ('getattr', 'setattr', 'hasattr', 'delattr'):
+                for a in n.args[1:2]:
+                    if isinstance(a, ast.Constant) and isinstance(a.value, str):
+                        blocked_fields.add(a.value)
+    for t in trees:
+        parents = {}
+        for n in ast.walk(t):
+            for c in ast.iter_child_nodes(n):
+                parents[c] = n
+        for n in ast.walk(t):
+            if isinstance(n, ast.Name) and n.id in recs and isinstance(n.ctx, ast.Load):
+                p = parents.get(n)
+                if isinstance(p, ast.Call) and p.func is n:
+                    cname = n.id
+                    fields = recs[cname][1]
+                    names = [f for f, _ in fields]
+                    if any(isinstance(a, ast.Starred) for a in p.args) or any(k.arg is None or k.arg not in names for k in p.keywords) or \
+                            len(p.args) > len(names):
+                        blocked_cls.add(cname)
+                    elif p.keywords and not all(isinstance(k.value, (ast.Name, ast.Constant)) for k in p.keywords):
+                        blocked_cls.add(cname)
+                    continue
+                # annotations were already removed; any other mention (isinstance, attribute of the class, ...) blocks
+                blocked_cls.add(n.id)
+            elif isinstance(n, ast.Attribute) and n.attr in recs and isinstance(parents.get(n), ast.Call) and parents[n].func is n:
+                blocked_cls.add(n.attr)
+    for f, owners in field_owner.items():
+        if len({i for _c, i in owners}) > 1 or f in blocked_fields:
+            for c, _i in owners:
+                blocked_cls.add(c)
+    live = {c: v for c, v in recs.items() if c not in blocked_cls}
+    if not live:
+        return 0
+    index_of = {}
+    for cname, (st, fields) in live.items():
+        for i, (f, _d) in enumerate(fields):
+            index_of[f] = i
+    count = 0
+
+    class T(ast.NodeTransformer):
+        def visit_Call(self, node):
+            nonlocal count
+            self.generic_visit(node)
+            if isinstance(node.func, ast.Name) and node.func.id in live:
+                fields = live[node.func.id][1]
+                vals = list(node.args) + [None] * (len(fields) - len(node.args))
+                for k in node.keywords:
+                    vals[[f for f, _ in fields].index(k.arg)] = k.value
+                for i, (f, d) in enumerate(fields):
+                    if vals[i] is None:
+                        if d is None:
+                            return node
+                        vals[i] = _clone(d)
+                count += 1
+                return _loc(ast.Tuple(elts=vals, ctx=ast.Load()), node)
+            return node
+
+        def visit_Attribute(self, node):
+            nonlocal count
+            self.generic_visit(node)
+            if isinstance(node.ctx, ast.Load) and node.attr in index_of:
+                count += 1
+                return _loc(ast.Subscript(value=node.value, slice=ast.Constant(value=index_of[node.attr]), ctx=ast.Load()), node)
+            return node
+    for t in trees:
+        T().visit(t)
         ast.fix_missing_locations(t)
     return count
